@@ -50,6 +50,10 @@ type Case struct {
 	// counted from 0, so offsets change nothing.
 	ROff int `json:"r_offset,omitempty"`
 	QOff int `json:"q_offset,omitempty"`
+	// EarlierR (as long as R): the reference object is first aligned, by the same aligner value and with
+	// the same query, while it holds these letters; they are then overwritten in place with R's and the case
+	// proper is aligned. The result depends on the letters the sequence holds at the time of the call.
+	EarlierR string `json:"earlier_r,omitempty"`
 }
 
 // GenUsage draws the two usage dimensions above for a case whose other
@@ -61,6 +65,18 @@ func GenUsage(t *rapid.T, c *Case, pool string, genMat func(*rapid.T) MatSpec) {
 	}
 	if rapid.IntRange(0, 4).Draw(t, "oversize-matrix") == 0 {
 		c.Oversize = rapid.IntRange(1, 3).Draw(t, "oversize")
+	}
+	if len(c.R) > 0 && rapid.IntRange(0, 5).Draw(t, "reference-edited-in-place") == 0 {
+		if len(c.R) <= 64 {
+			x := make([]byte, len(c.R))
+			for i := range x {
+				x[i] = pool[rapid.IntRange(0, len(pool)-1).Draw(t, "earlier-r")]
+			}
+			c.EarlierR = string(x)
+		} else {
+			k := rapid.IntRange(1, len(c.R)-1).Draw(t, "earlier-r-rotation")
+			c.EarlierR = c.R[k:] + c.R[:k]
+		}
 	}
 	large := (len(c.R)+1)*(len(c.Q)+1) >= 65536
 	reuse := rapid.IntRange(0, 4).Draw(t, "matrix-reused") == 0
@@ -98,6 +114,9 @@ func (c Case) UsageClasses() []string {
 	}
 	if c.ROff != 0 || c.QOff != 0 {
 		l = append(l, "sequences-with-location-offsets")
+	}
+	if c.EarlierR != "" && c.EarlierR != c.R {
+		l = append(l, "reference-object-aligned-before-an-edit-in-place")
 	}
 	return l
 }
@@ -432,6 +451,20 @@ func (c Case) Seqs() (align.AlphabetSlicer, align.AlphabetSlicer) {
 	return mk("r", c.R), mk("q", c.Q)
 }
 
+// setLetters overwrites the letters of x in place, keeping its storage.
+func setLetters(x align.AlphabetSlicer, s string) {
+	switch x := x.(type) {
+	case *linear.Seq:
+		for i := range x.Seq {
+			x.Seq[i] = alphabet.Letter(s[i])
+		}
+	case *linear.QSeq:
+		for i := range x.Seq {
+			x.Seq[i].L = alphabet.Letter(s[i])
+		}
+	}
+}
+
 // Aligner returns the library aligner for the case with the given matrix.
 func (c Case) LibAligner(m [][]int) align.Aligner {
 	switch c.Aligner {
@@ -496,6 +529,11 @@ func (c Case) Run() ([]Pair, []feat.Pair, error) {
 		}
 	}
 	r, q := c.Seqs()
+	if len(c.EarlierR) == len(c.R) && c.EarlierR != "" {
+		setLetters(r, c.EarlierR)
+		al.Align(r, q) // result irrelevant
+		setLetters(r, c.R)
+	}
 	ps, err := al.Align(r, q)
 	if err != nil {
 		return nil, nil, err
